@@ -218,6 +218,17 @@ def proof_stage(ctx, propfile, extra_targets=()):
         ctx.violation(f"{propfile} does not match its pinned hash (statement changed?)",
                       {"broken": "pin", "file": propfile, "hash": h}, no_input=True)
         ok = False
+    if getattr(ctx, "tier", "quick") == "thorough":
+        # independent re-check of the compiled closure of this property's theorems
+        mod = "EC." + propfile[:-2].replace("/", ".")
+        rc, out, _ = sh(["coqchk", "-silent", "-o", "-Q", COQ, "EC", mod], cwd=COQ, timeout=1800)
+        summary = out[out.find("CONTEXT SUMMARY"):] if "CONTEXT SUMMARY" in out else out[-600:]
+        clean = rc == 0 and all(re.search(r"\* %s:\s*<none>" % k, summary) for k in
+                                ("Axioms", "Constants/Inductives relying on type-in-type", "Constants/Inductives relying on unsafe \\(co\\)fixpoints", "Inductives whose positivity is assumed"))
+        ctx.coverage["coqchk"] = "Axioms: <none>; no type-in-type, unsafe fixpoints or assumed positivity" if clean else summary[-400:]
+        if not clean:
+            ctx.violation("coqchk does not accept the compiled theorems as closed: " + summary[-300:], {"broken": "coqchk", "log": out[-2000:]}, no_input=True)
+            ok = False
     return ok
 
 
